@@ -185,7 +185,12 @@ fn collect_types_to_bind(
                 // to not have them in the where clause.
                 !type_or_sub_type_path_starts_with_ident(&field.ty, input_ident)
             })
-            .map(|f| (f.ty.clone(), utils::is_compact(f)))
+            .map(|f| {
+                (
+                    utils::maybe_encoded_as(f).unwrap_or_else(|| f.ty.clone()),
+                    utils::is_compact(f),
+                )
+            })
             .collect()
     };
 
